@@ -328,3 +328,58 @@ func cliRebuildSmaller(run *ev.Run, bin, prop string, fn func(f, how string, atT
 		}
 	}
 }
+
+// cliGuessedPackager drives the nfpm binary twice per format over one configuration
+// whose per-format overrides carry scripts, contents (a config|noreplace file among
+// them) and relations: once with the packager named (-p) and once with the packager
+// left to be guessed from the target's extension. Both runs write the same target
+// path one after the other, so whatever differs between the two packages comes from
+// how the packager was selected.
+func cliGuessedPackager(run *ev.Run, bin, prop string, fn func(f string, named, guessed []byte)) {
+	dir := newWorkDir(strings.ToLower(prop) + "-cliguess")
+	defer removeWorkDir(dir)
+	w := func(name, body string, mode os.FileMode) string {
+		p := filepath.Join(dir, name)
+		_ = os.WriteFile(p, []byte(body), mode)
+		return p
+	}
+	plain := w("plain.txt", "plain payload\n", 0o644)
+	var y strings.Builder
+	y.WriteString("name: guessed\narch: amd64\nversion: 1.2.3\nmaintainer: \"G <g@example.com>\"\ndescription: d\nmtime: 2017-07-14T02:40:00Z\n")
+	y.WriteString("rpm:\n  buildhost: verif-host\n")
+	y.WriteString("contents:\n  - src: " + plain + "\n    dst: /opt/guessed/plain.txt\n")
+	y.WriteString("overrides:\n")
+	for _, f := range formats {
+		conf := w("conf-"+f+".conf", "setting = "+f+"\n", 0o640)
+		extra := w("only-"+f+".txt", "only for "+f+"\n", 0o644)
+		post := w("postinstall-"+f+".sh", "#!/bin/sh\necho post "+f+"\n", 0o755)
+		pre := w("preremove-"+f+".sh", "#!/bin/sh\necho prerm "+f+"\n", 0o755)
+		y.WriteString("  " + f + ":\n")
+		y.WriteString("    depends:\n      - dep-of-" + f + "\n")
+		y.WriteString("    scripts:\n      postinstall: " + post + "\n      preremove: " + pre + "\n")
+		y.WriteString("    contents:\n")
+		y.WriteString("      - src: " + plain + "\n        dst: /opt/guessed/plain.txt\n")
+		y.WriteString("      - src: " + conf + "\n        dst: /etc/guessed/" + f + ".conf\n        type: config|noreplace\n        file_info:\n          mode: 0640\n")
+		y.WriteString("      - src: " + extra + "\n        dst: /opt/guessed/only-" + f + ".txt\n")
+	}
+	cfg := w("nfpm.yaml", y.String(), 0o644)
+	for _, f := range formats {
+		run.Case("cli-packager-guessed-from-target-extension|"+f, true)
+		target := filepath.Join(dir, "out."+f)
+		var outs [2][]byte
+		ok := true
+		for k, args := range [][]string{{"package", "-f", cfg, "-p", f, "-t", target}, {"package", "-f", cfg, "-t", target}} {
+			_ = os.Remove(target)
+			so, se, code, err := runCmd(nil, dir, nil, bin, args...)
+			if err != nil || code != 0 {
+				run.Violate(prop+"/cli/"+f+"/build-failed/"+[]string{"packager-named", "packager-guessed-from-target-extension"}[k], map[string]any{"exit": code, "output": ev.Short(string(so)+string(se), 300)})
+				ok = false
+				break
+			}
+			outs[k], _ = os.ReadFile(target)
+		}
+		if ok {
+			fn(f, outs[0], outs[1])
+		}
+	}
+}
